@@ -206,6 +206,15 @@ func (r *countingReader) Close() error {
 type CountingDirectory struct {
 	filesystem.DirectoryCloser
 	h *HandleStats
+	// plan, if set, makes OpenRead and the reads of opened files numbered
+	// fault positions.
+	plan *Plan
+}
+
+// WithFaults makes file opens and reads below d positions of plan.
+func (d *CountingDirectory) WithFaults(plan *Plan) *CountingDirectory {
+	d.plan = plan
+	return d
 }
 
 // NewCountingDirectory wraps d.
@@ -220,14 +229,22 @@ func (d *CountingDirectory) EnterDirectory(name path.Component) (filesystem.Dire
 		return nil, err
 	}
 	d.h.DirsEntered.Add(1)
-	return &countingChild{CountingDirectory{DirectoryCloser: c, h: d.h}}, nil
+	return &countingChild{CountingDirectory{DirectoryCloser: c, h: d.h, plan: d.plan}}, nil
 }
 
 // OpenRead counts the reader.
 func (d *CountingDirectory) OpenRead(name path.Component) (filesystem.FileReader, error) {
+	if d.plan != nil {
+		if err := d.plan.Op("file", "OpenRead", name.String()); err != nil {
+			return nil, err
+		}
+	}
 	r, err := d.DirectoryCloser.OpenRead(name)
 	if err != nil {
 		return nil, err
+	}
+	if d.plan != nil {
+		r = &faultyReader{FileReader: r, plan: d.plan, name: name.String()}
 	}
 	d.h.mu.Lock()
 	id := d.h.opened
@@ -328,6 +345,10 @@ type StackConfig struct {
 	// Virtual selects the virtual build directory branch of main.go
 	// (InMemoryPrepopulatedDirectory) instead of the native one.
 	Virtual bool
+	// DirectoryFaults makes every build directory operation of the
+	// worker code (and, for the native branch, file opens and reads) a
+	// numbered position of Plan.
+	DirectoryFaults bool
 }
 
 // Stack is the executor pipeline of cmd/bb_worker/main.go over a naive
@@ -338,6 +359,7 @@ type Stack struct {
 	Writer   *WriterTap
 	Handles  *HandleStats
 	Virtual  *VirtualRoot // nil for the native branch
+	DirStats *FaultyDirStats
 	root     filesystem.DirectoryCloser
 
 	mu      sync.Mutex
@@ -404,8 +426,16 @@ func NewStack(cfg StackConfig) (*Stack, error) {
 			return nil, fmt.Errorf("open build root: %w", err)
 		}
 		s.root = local
-		buildDirectory = builder.NewNaiveBuildDirectory(NewCountingDirectory(local, s.Handles), cfg.Fetcher, FileFetcher{CAS: cfg.CAS}, semaphore.NewWeighted(1), s.Writer)
+		counting := NewCountingDirectory(local, s.Handles)
+		if cfg.DirectoryFaults {
+			counting.WithFaults(cfg.Plan)
+		}
+		buildDirectory = builder.NewNaiveBuildDirectory(counting, cfg.Fetcher, FileFetcher{CAS: cfg.CAS}, semaphore.NewWeighted(1), s.Writer)
 		buildDirectoryCleaner = cleaner.NewDirectoryCleaner(local, cfg.BuildRoot)
+	}
+	if cfg.DirectoryFaults {
+		s.DirStats = &FaultyDirStats{}
+		buildDirectory = NewFaultyBuildDirectory(buildDirectory, cfg.Plan, s.DirStats)
 	}
 	var nextParallelActionID atomic.Uint64
 	creator := builder.NewSharedBuildDirectoryCreator(
